@@ -92,6 +92,8 @@ impl State {
     pub(crate) fn set_has_result<C: Consistency, const SET: bool>(&self) {
         trace!(SET, "set_has_result");
 
+        #[cfg(compio_verif)]
+        compio_log::verif::point("exec.state.set_has_result", self as *const Self as u64, SET as u64);
         if SET {
             self.0.fetch_or(HAS_RESULT, C::RELEASE);
         } else {
@@ -102,6 +104,8 @@ impl State {
     pub(crate) fn set_has_waker<C: Consistency, const SET: bool>(&self) {
         trace!(SET, "set_has_waker");
 
+        #[cfg(compio_verif)]
+        compio_log::verif::point("exec.state.set_has_waker", self as *const Self as u64, SET as u64);
         if SET {
             self.0.fetch_or(HAS_WAKER, C::RELEASE);
         } else {
@@ -112,36 +116,48 @@ impl State {
     pub(crate) fn start_scheduling(&self) -> Snapshot {
         trace!("start_scheduling");
 
+        #[cfg(compio_verif)]
+        compio_log::verif::point("exec.state.start_scheduling", self as *const Self as u64, 0);
         Snapshot(self.0.fetch_or(SCHEDULED | SCHEDULING, Strong::ACQ_REL))
     }
 
     pub(crate) fn finish_scheduling(&self) {
         trace!("finish_scheduling");
 
+        #[cfg(compio_verif)]
+        compio_log::verif::point("exec.state.finish_scheduling", self as *const Self as u64, 0);
         self.0.fetch_and(!SCHEDULING, Strong::RELEASE);
     }
 
     pub(crate) fn unschedule(&self) -> Snapshot {
         trace!("unschedule");
 
+        #[cfg(compio_verif)]
+        compio_log::verif::point("exec.state.unschedule", self as *const Self as u64, 0);
         Snapshot(self.0.fetch_and(!SCHEDULED, Strong::ACQ_REL))
     }
 
     pub(crate) fn set_cancelled(&self) -> Snapshot {
         trace!("set_cancelled");
 
+        #[cfg(compio_verif)]
+        compio_log::verif::point("exec.state.set_cancelled", self as *const Self as u64, 0);
         Snapshot(self.0.fetch_and(!NOT_CANCELLED, Strong::ACQ_REL))
     }
 
     pub(crate) fn finish_running(&self) -> Snapshot {
         trace!("finish_running");
 
+        #[cfg(compio_verif)]
+        compio_log::verif::point("exec.state.finish_running", self as *const Self as u64, 0);
         Snapshot(self.0.fetch_or(COMPLETED | HAS_RESULT, Strong::ACQ_REL))
     }
 
     pub(crate) fn start_setting_waker(&self) -> Snapshot {
         trace!("start_setting_waker");
 
+        #[cfg(compio_verif)]
+        compio_log::verif::point("exec.state.start_setting_waker", self as *const Self as u64, 0);
         Snapshot(self.0.fetch_and(!NOT_SETTING_WAKER, Strong::ACQ_REL))
     }
 
@@ -154,6 +170,8 @@ impl State {
             NOT_SETTING_WAKER
         };
 
+        #[cfg(compio_verif)]
+        compio_log::verif::point("exec.state.finish_setting_waker", self as *const Self as u64, SUCCESS as u64);
         Snapshot(self.0.fetch_or(flag, Strong::ACQ_REL))
     }
 
@@ -163,15 +181,21 @@ impl State {
 
         trace!("set_dropped");
 
+        #[cfg(compio_verif)]
+        compio_log::verif::point("exec.state.set_dropped", self as *const Self as u64, 0);
         Snapshot(self.0.fetch_and(FLAG, Strong::ACQ_REL))
     }
 
     /// Load the state with acquire ordering.
     pub(crate) fn load<C: Consistency>(&self) -> Snapshot {
+        #[cfg(compio_verif)]
+        compio_log::verif::point("exec.state.load", self as *const Self as u64, 0);
         Snapshot(self.0.load(C::ACQUIRE))
     }
 
     pub(crate) fn inc(&self) -> Snapshot {
+        #[cfg(compio_verif)]
+        compio_log::verif::point("exec.state.inc", self as *const Self as u64, 0);
         let state = Snapshot(self.0.fetch_add(RC_UNIT, Strong::RELEASE));
         trace!(?state, "inc");
         if state.count() == RC_MAX {
@@ -182,6 +206,8 @@ impl State {
 
     /// Decrease the reference count by one and return the old state.
     pub(crate) fn dec(&self) -> Snapshot {
+        #[cfg(compio_verif)]
+        compio_log::verif::point("exec.state.dec", self as *const Self as u64, 0);
         let state = Snapshot(self.0.fetch_sub(RC_UNIT, Strong::ACQ_REL));
         trace!(?state, "dec");
         debug_assert!(state.count() >= 1, "Reference count underflow");
